@@ -148,10 +148,9 @@ def run (j : Json) : Except String Json := do
     | some "partial" => some .partialOf | some "allrequired" => some .allRequired
     | some "extend" => some .extend | some "omit" => some .omit | some "pick" => some .pick
     | _ => none
-  let decl : FieldDecl := match decl, derive with
-    | FieldDecl.struct c fields dflt, some d =>
-      FieldDecl.struct { c with name := String.ofList (derivedName d (viaName.map (·.toList)) baseName) } fields dflt
-    | d, _ => d
+  -- the message heads carry the REAL class name; the model's name for a derived class is compared
+  -- through the property-relevant abstraction only: is it in `[\w.]+` (a harmless renaming is no alarm)
+  let modelName : Option Text := derive.map fun d => derivedName d (viaName.map (·.toList)) baseName
   match decl with
   | .struct c fields _ =>
     -- the document as handed to the real code (document keys), re-keyed through the mapper
@@ -204,6 +203,10 @@ def run (j : Json) : Except String Json := do
                  ("invalid", Json.arr (invalid.map Json.str).toArray),
                  ("flat", Json.bool flat),
                  ("clsName", Json.str c.name),
+                 ("clsNameModel", match modelName with | some n => Json.str (ofText n) | none => Json.null),
+                 ("clsNameWordReal", Json.bool (identOk (codec alnum).word c.name.toList)),
+                 ("clsNameWordModel", match modelName with
+                    | some n => Json.bool (identOk (codec alnum).word n) | none => Json.null),
                  ("path", Json.bool pathOk),
                  ("kind", Json.str kind),
                  ("sites", Json.arr (expected.map (siteToJson cls)).toArray),
